@@ -94,7 +94,11 @@ def file_graph(rng):
             for rep in range(rng.randrange(1, 3)):
                 sp = spell(rng, dirs[k], tgt[d])
                 uses.append(("@ROOT@/" + "/".join(dirs[k][1:]) if len(dirs[k]) > 1 else "@ROOT@", sp))
-                src += "d%d_%d := import(\"%s\")\n" % (d, rep, sp)
+                how = rng.randrange(4)
+                if how == 0: src += "use%d_%d := func() { return import(\"%s\") }\nd%d_%d := use%d_%d()\n" % (d, rep, sp, d, rep, d, rep)      # inside a function literal
+                elif how == 1: src += "d%d_%d := func() { return func() { if true { return import(\"%s\") } } }()()\n" % (d, rep, sp)
+                else: src += "d%d_%d := import(\"%s\")\n" % (d, rep, sp)
+                src += "if d%d_%d.name != \"f%d\" { throw \"import of f%d gave \" + string(d%d_%d.name) }\n" % (d, rep, d, d, d, rep)
         src += "return {set: func(v) { state = v }, get: func() { return state }, name: \"f%d\"}\n" % k
         files.append(("/".join(tgt[k][1:]), src))
     # the main script: its directory is the process directory, the root of the tree or a directory of it
@@ -267,7 +271,7 @@ def run(rep, br, proofs, rng, tier):
     rep.coverage.update({
         "file_module_graphs_run": fran, "importer_names_compared": npairs, "importer_name_disagreements": len(dis),
         "evaluations": len(cases) + len(fcases) + npairs, "distinct_nontrivial": ran + cyc + fran,
-        "rule": "programs with 255, 256, 257 and 300 modules (module indexes around the byte boundary of the operand) with state and identity probes; generated import graphs over 1-5 source modules (DAGs with imports at top level, under conditions and inside functions of modules; back edges forming cycles of length 1-5; unknown module names) with main scripts importing at top level, in loops, in functions and conditionally, x optimizer on/off x encode/decode round trip, executed on two VMs over one Bytecode; each module body logs its start in a global array; every pair of imports of one module is probed for shared state and object identity; file modules through importers.FileImporter over a virtual tree: 2-5 files in nested directories importing each other and imported by a main script whose work directory is given relative, absolute or with redundant elements, every import spelled one of eight ways (canonical relative, ./, redundant . / x/.. / empty elements, climbing above the process directory and back, absolute, absolute with redundant elements, doubled separators), same probes, and FileImporter.Name compared with the model fi_name on every (work directory, spelling) used plus corner cases; non-trivial = ran with probes / rejected at compile time as expected",
+        "rule": "programs with 255, 256, 257 and 300 modules (module indexes around the byte boundary of the operand) with state and identity probes; generated import graphs over 1-5 source modules (DAGs with imports at top level, under conditions and inside functions of modules; back edges forming cycles of length 1-5; unknown module names) with main scripts importing at top level, in loops, in functions and conditionally, x optimizer on/off x encode/decode round trip, executed on two VMs over one Bytecode; each module body logs its start in a global array; every pair of imports of one module is probed for shared state and object identity; file modules through importers.FileImporter over a virtual tree: 2-5 files in nested directories importing each other (at top level and inside function literals) and imported by a main script whose work directory is given relative, absolute or with redundant elements, every import spelled one of eight ways (canonical relative, ./, redundant . / x/.. / empty elements, climbing above the process directory and back, absolute, absolute with redundant elements, doubled separators), same probes, and FileImporter.Name compared with the model fi_name on every (work directory, spelling) used plus corner cases; non-trivial = ran with probes / rejected at compile time as expected",
         "samples": [cases[0]["main"], cases[0]["mods"][0]],
         "graphs_run": ran, "cycles_or_unknown_rejected": cyc, "oracle_failures": len(fails)})
 
